@@ -243,7 +243,8 @@ Definition reload_merges (m : mmap) : mmap :=
 Definition reopen (t : table) : table :=
   let m := reload_merges (merges t) in
   let nr := Z.of_nat (length (data t)) in
-  let nc := Z.of_nat (length (nth 0 (data t) [])) in
+  (* repaired (C03-5): a table without rows keeps its declared column count *)
+  let nc := if nr =? 0 then ncols t else Z.of_nat (length (nth 0 (data t) [])) in
   {| nrows := nr; ncols := nc;
      data := map (fun p => let r := fst p in
                map (fun q => let c := fst q in let x := snd q in
